@@ -237,3 +237,48 @@ func HarnessUnpackStep() {
 		}
 	}
 }
+
+// HarnessC04Allow: a Packer with the relative allow-list entry "../e" (which means /w/e for the
+// destination /w/d and /w/q/e for /w/q/r) unpacks one link entry into each of the two
+// destinations in turn. A link left under a destination leads inside it or inside what the entry
+// means for that destination - whatever the earlier call allowed.
+func HarnessC04Allow() {
+	envReset()
+	envMkdir("/w", 0755, 100)
+	envMkdir("/w/d", 0755, 100)
+	envMkdir("/w/e", 0755, 100)
+	envWriteFile("/w/e/k", 0644, 100, "K")
+	envMkdir("/w/e2", 0755, 100) // shares the allow-listed name as a prefix
+	envMkdir("/w/q", 0755, 100)
+	envMkdir("/w/q/r", 0755, 100)
+	envMkdir("/w/q/e", 0755, 100)
+	envWriteFile("/w/q/e/k", 0644, 100, "QK")
+	envWriteFile("/w/x", 0600, 100, "X")
+	envChdir("/w")
+	p := &Packer{allowSymlinkTargets: []string{"../e"}}
+	// first target: inside, allow-listed, outside and not allow-listed, prefix-sharing sibling
+	t1 := []string{"k", "../e/k", "../x", "../e2", "/w/e/k"}[verif.Choose("t1", 5)]
+	t2 := symPath("t2", verif.Param("sLink", 4), 1, true)
+	verif.Assume(t1 != "" && t2 != "")
+	envBaseline()
+	dsts := []string{"/w/d", "/w/q/r"}
+	allowed := [][]string{{"w", "e"}, {"w", "q", "e"}}
+	for i, t := range []string{t1, t2} {
+		err := p.Unpack(envTarReader([]envTarEntry{{Name: "l", Linkname: t, Typeflag: tar.TypeSymlink, Mode: 0777, Mtime: 1000}}, false), dsts[i])
+		verif.ObserveBool("ok", err == nil)
+		if i == 1 {
+			verif.Reach("second-unpack")
+		}
+		for _, n := range envSnapshot(dsts[i]) {
+			if n.Kind == envLink {
+				verif.Reach("allow-link-created")
+				where, ok := refPhysical(dsts[i] + "/" + n.Path)
+				// KF-C04-dotdot-after-link: ".." after a name is judged lexically
+				if unpackDotDotAfterName(t) && verif.KnownOpen("KF-C04-dotdot-after-link") {
+					continue
+				}
+				verif.Assert("C04-link-resolves-inside-dst-or-allow-listed", !ok || refHasPrefix(where, refPush(nil, dsts[i])) || refHasPrefix(where, allowed[i]))
+			}
+		}
+	}
+}
